@@ -146,6 +146,21 @@ var c01Constructs = []c01Construct{
 			"wrap.vuego": `<ul><li v-for="n in rows"><slot></slot></li><li><slot></slot></li></ul>`,
 			"comp.vuego": "<section>" + s + "</section>"}, d
 	}},
+	// a KEPT template tag (v-keep) is an element of the output: the value reaches its attributes — through an include tag's bound and
+	// interpolated props (evaluated in place before the tag is copied) or not at all (a plain kept template keeps its attributes as written)
+	{"keep-include", func(s string, v any) (map[string]string, map[string]any) {
+		d := c01Data(v)
+		d["y"] = v
+		delete(d, "x")
+		return map[string]string{"page.vuego": `<div><template v-keep include="comp.vuego" :x="y" title="by {{ y }}" data-k="{{ kk }}"></template></div>`, "comp.vuego": "<section>" + s + "</section>"}, d
+	}},
+	{"keep-include-looped", func(s string, v any) (map[string]string, map[string]any) {
+		d := c01Data(v)
+		return map[string]string{"page.vuego": `<ul><li v-for="r in rows"><template v-keep include="comp.vuego" :x="r.x" label="{{ r.x }}"></template></li></ul>`, "comp.vuego": "<section>" + s + "</section>"}, d
+	}},
+	{"keep-plain", func(s string, v any) (map[string]string, map[string]any) {
+		return map[string]string{"page.vuego": `<div><template v-keep :q="x" label="{{ x }}">` + s + `</template></div>`}, c01Data(v)
+	}},
 	{"layout-var", func(s string, v any) (map[string]string, map[string]any) {
 		return map[string]string{"page.vuego": "---\nlayout: main\n---\n<em>page</em>", "layouts/main.vuego": `<main><div v-html="content"></div>` + s + `</main>`}, c01Data(v)
 	}},
